@@ -95,8 +95,12 @@ def gen_instance(rng, sc):
         m1, m2, dv, dflt = _distinct_roles(rng, 4)
         a = rng.choice(('extra', 'svc:get'))
         defaults = [_plain('svc:get', dflt)]
-        if rng.random() < 0.5:
-            defaults.append(_plain('svc:list', ['rule', 'svc:get']))
+        if rng.random() < 0.7:
+            # a policy that reaches the overridden name through rule:
+            # (resolved against the live rule store at evaluation time)
+            defaults.append(_plain('svc:list', rng.choice((
+                ['rule', a], ['or', [['false'], ['rule', a]]],
+                ['not', ['not', ['rule', a]]]))))
         w = _base_world(rng, defaults)
         w['files']['etc/policy.yaml'] = _file({a: m1}, rng)
         w['files']['etc/policy.d/' + rng.choice(W.DIR_FILE_POOL[:4])] = \
@@ -107,7 +111,10 @@ def gen_instance(rng, sc):
         # directory-file edit with an unchanged main file
         m, d1, dflt, other = _distinct_roles(rng, 4)
         a = rng.choice(('extra', 'svc:get'))
-        w = _base_world(rng, [_plain('svc:get', dflt)],
+        defaults = [_plain('svc:get', dflt)]
+        if rng.random() < 0.5:
+            defaults.append(_plain('svc:list', ['rule', a]))
+        w = _base_world(rng, defaults,
                         dirs=('policy.d', 'extra.d')[:rng.choice((1, 2))])
         w['files']['etc/policy.yaml'] = _file({a: m}, rng)
         fn = 'etc/policy.d/' + rng.choice(W.DIR_FILE_POOL[:4])
@@ -190,7 +197,7 @@ def gen_instance(rng, sc):
         for _ in range(ncalls):
             c = {'p': rng.randrange(nprobe), 'kind': 'enforce',
                  'do_raise': rng.random() < 0.3}
-            if t == 0 and rng.random() < 0.2:
+            if t == 0 and rng.random() < 0.3:
                 # the reload may also be driven by a direct load_rules()
                 c['kind'] = 'load'
             calls.append(c)
@@ -377,6 +384,7 @@ def dry_run(inst, pre):
     indices where the enforcer's rule store was just re-bound or resized,
     or where the call depth returned to the outermost library frame)."""
     marks = [[] for _ in inst['threads']]
+    post_load = [[] for _ in inst['threads']]
     state = {}
     seen_pos = set()
 
@@ -412,6 +420,11 @@ def dry_run(inst, pre):
                     state[(i, 'last_depth')] = d
                 elif event == 'return':
                     depth[i] = depth.get(i, 1) - 1
+                    if frame.f_code.co_name == 'load_rules' and \
+                            depth[i] <= 2:
+                        # the public load step of this call is over: what
+                        # follows is look-up and evaluation
+                        post_load[i].append(s.steps[i])
                 return local
 
             def glob(frame, event, arg):
@@ -427,6 +440,7 @@ def dry_run(inst, pre):
     out = run_plan(inst, pre, plan, recorder=recorder)
     return {'steps': out['steps'],
             'marks': [sorted(set(m)) for m in marks],
+            'post_load': [sorted(set(m)) for m in post_load],
             'positions': sorted(seen_pos)}
 
 
@@ -461,7 +475,14 @@ def gen_plan(rng, inst, dry, kind):
         ne -= 1
     else:
         t = rng.randrange(1, nt)
-        plan.append(['T', t, point(t)])
+        pl = dry.get('post_load', [[]] * nt)[t]
+        if pl and rng.random() < 0.6:
+            # parked after its own load step, inside look-up/evaluation
+            n0 = pl[0]
+            plan.append(['T', t, rng.randint(n0, max(n0, min(
+                steps[t], n0 + 60)))])
+        else:
+            plan.append(['T', t, point(t)])
         plan.append(['OP'])
         ne -= 1
     nsw = rng.choice((1, 2, 2, 3, 3, 4))
@@ -482,22 +503,47 @@ def gen_plan(rng, inst, dry, kind):
     return plan
 
 
-def sweep_plans(inst, dry, chunk):
-    """Single-switch plans of the complete sweep, for this chunk: the
-    reloading thread (0) is stopped after i line events, the deciding
-    thread (1) runs to completion, then everything finishes."""
+MID_OFFSETS = (1, 4, 9, 16, 25, 36, 49, 64)
+
+
+def sweep_plans(inst, dry, chunk, mid):
+    """Plans of the systematic sweep, for this chunk. Plain sweep: the
+    edit lands first, the reloading thread (0) is stopped after i line
+    events, the deciding thread (1) runs to completion, then everything
+    finishes. Mid sweep: the deciding thread first runs through its own
+    load step and a few line events into look-up/evaluation, then the edit
+    lands, then the reloading thread is stopped after i line events and the
+    decider resumes."""
     n = dry['steps'][0]
-    return [[['OP'], ['T', 0, i], ['T', 1, None], ['T', 0, None]]
-            for i in range(chunk, n + 1, NCHUNK)]
+    if not mid:
+        return [[['OP'], ['T', 0, i], ['T', 1, None], ['T', 0, None]]
+                for i in range(chunk, n + 1, NCHUNK)]
+    pl = dry['post_load'][1]
+    n0 = pl[0] if pl else dry['steps'][1] // 2
+    off = MID_OFFSETS[chunk % len(MID_OFFSETS)]
+    return [[['T', 1, n0 + off], ['OP'], ['T', 0, i], ['T', 1, None],
+             ['T', 0, None]] for i in range(chunk, n + 1, NCHUNK)]
+
+
+def sweep_variant(i):
+    v = (i // (NCHUNK * 4)) % 4
+    return {'direct_load': bool(v & 1), 'mid': bool(v & 2)}
 
 
 def instance_for(base, i, mode):
     if mode == 'sweep':
         sc = SCENARIOS[(i // NCHUNK) % 4]
-        inst_no = i // (NCHUNK * 4)
+        inst_no = i // (NCHUNK * 4 * 4)
         rng = core.rng_for(base, 'C20', '%s:%d' % (sc, inst_no), 'sweep')
         inst = gen_instance(rng, sc)
         inst['threads'] = inst['threads'][:2]
+        var = sweep_variant(i)
+        r0 = inst['threads'][0]['calls'][0]
+        inst['threads'][0]['calls'] = [
+            {'p': r0['p'], 'do_raise': False,
+             'kind': 'load' if var['direct_load'] else 'enforce'}]
+        inst['threads'][1]['calls'] = inst['threads'][1]['calls'][:1]
+        inst['edits'] = inst['edits'][:1]
         return inst, rng
     rng = core.rng_for(base, 'C20', i, mode)
     sc = SCENARIOS[i % len(SCENARIOS)]
@@ -519,15 +565,21 @@ def run_one(base, i, prop=None, mode='random'):
     cnt = core.Counter()
     positions = set()
     if mode == 'sweep':
-        plans = sweep_plans(inst, dry, i % NCHUNK)
+        var = sweep_variant(i)
+        plans = sweep_plans(inst, dry, i % NCHUNK, var['mid'])
         cnt.hit('sweep_points_total', dry['steps'][0] + 1
                 if i % NCHUNK == 0 else 0)
+        cnt.hit('sweep:%s%s' % ('mid' if var['mid'] else 'pre',
+                                '+direct-load' if var['direct_load']
+                                else ''), len(plans))
     else:
         if mode == 'opcode':
             # opcode events are ~5x denser than lines: scale the dry-run
             # line counts (landmarks stay approximate)
             dry = {'steps': [x * 5 for x in dry['steps']],
                    'marks': [[m * 5 for m in ms] for ms in dry['marks']],
+                   'post_load': [[m * 5 for m in ms]
+                                 for ms in dry['post_load']],
                    'positions': dry['positions']}
         plans = [gen_plan(rng, inst, dry,
                           'pre' if rng.random() < 0.55 else 'mid')
@@ -578,8 +630,8 @@ def run_one(base, i, prop=None, mode='random'):
 
 PROPS = ('C20',)
 TIERS = {'C20': {
-    'quick': [('sweep', NCHUNK * 4), ('random', 420)],
-    'thorough': [('sweep', NCHUNK * 4 * 12), ('random', 80000),
+    'quick': [('sweep', NCHUNK * 4 * 4), ('random', 640)],
+    'thorough': [('sweep', NCHUNK * 4 * 4 * 12), ('random', 80000),
                  ('opcode', 4000)]}}
 
 
@@ -758,6 +810,8 @@ def extra_coverage(prop, counters):
                               if k.startswith('scenario:')},
         'decisions_judged': counters.get('decisions_judged', 0),
         'single_switch_sweep_points': counters.get('sweep_points_total', 0),
+        'sweep_plans_by_variant': {k[6:]: v for k, v in counters.items()
+                                   if k.startswith('sweep:')},
         'lock_handovers': counters.get('fault:lock_handover', 0),
     }
 
